@@ -934,6 +934,14 @@ pub fn inject_tail_record(b: &[u8], tail: (usize, usize), typ: u64, value: &[u8]
 	out
 }
 
+thread_local! {
+	/// what the corruption oracle is doing right now ("read" while inside the library's read function)
+	pub static STAGE: std::cell::Cell<&'static str> = std::cell::Cell::new("");
+}
+fn stage(s: &'static str) {
+	STAGE.with(|c| c.set(s));
+}
+
 #[derive(Clone, Copy, Debug, PartialEq, Eq)]
 pub enum Kind {
 	Monitor,
@@ -974,6 +982,13 @@ impl<'a> Corruptor<'a> {
 
 	pub fn read(&self, b: &[u8]) -> ReadOutcome {
 		let keys = self.sim.w.nodes[self.node].keys_manager;
+		stage("read");
+		let r = self.read_inner(b, keys);
+		stage("after-read");
+		r
+	}
+
+	fn read_inner(&self, b: &[u8], keys: &TestKeysInterface) -> ReadOutcome {
 		match self.kind {
 			Kind::Monitor => match read_mon(b, keys) {
 				Ok((m, _)) => ReadOutcome::Monitor(m),
@@ -988,9 +1003,12 @@ impl<'a> Corruptor<'a> {
 			},
 			Kind::Manager => {
 				let refs: Vec<&Mon> = self.mons.iter().collect();
-				with_reloaded_manager(self.sim, self.node, b, &refs, |res| match res {
-					Ok(m) => ReadOutcome::Manager(manager_static_surface(m), m.encode()),
-					Err(e) => ReadOutcome::Err(format!("{:?}", e)),
+				with_reloaded_manager(self.sim, self.node, b, &refs, |res| {
+					stage("inspect");
+					match res {
+						Ok(m) => ReadOutcome::Manager(manager_static_surface(m), m.encode()),
+						Err(e) => ReadOutcome::Err(format!("{:?}", e)),
+					}
 				})
 			},
 		}
@@ -1121,6 +1139,7 @@ pub fn corrupt_object(cx: &Corruptor, bytes: &[u8], odd_value: &[u8], cuts: &[u3
 			match &got {
 				ReadOutcome::Err(_) => (0u8, Ok(())),
 				_ => {
+					stage("reencode");
 					let re = match &got {
 						ReadOutcome::Monitor(m) => m.encode(),
 						ReadOutcome::Update(u) => u.encode(),
@@ -1131,7 +1150,9 @@ pub fn corrupt_object(cx: &Corruptor, bytes: &[u8], odd_value: &[u8], cuts: &[u3
 					// cached transactions, which a value-level corruption may break without making the encoding
 					// invalid)
 					let same = same_bytes_modulo_order(&re, bytes);
-					(if same { 1 } else { 2 }, cx.roundtrips(&got))
+					let rt = cx.roundtrips(&got);
+					stage("done");
+					(if same { 1 } else { 2 }, rt)
 				},
 			}
 		}));
@@ -1151,7 +1172,8 @@ pub fn corrupt_object(cx: &Corruptor, bytes: &[u8], odd_value: &[u8], cuts: &[u3
 			Err(_) => {
 				let (msg, loc) = vcore::take_last_panic().unwrap_or_default();
 				let loc_short = loc.rsplit("/lightning/src/").next().unwrap_or(&loc).to_string();
-				Some((format!("mutation-panic/{}@{}", kind, loc_short), format!("{} byte {} of {} ^ {:#x}: panic at {}: {}", kind, p, bytes.len(), xor, loc, msg.chars().take(200).collect::<String>())))
+				let stg = STAGE.with(|c| c.get());
+				Some((format!("mutation-panic/{}/{}@{}", kind, stg, loc_short), format!("[{}] {} byte {} of {} ^ {:#x}: panic at {}: {}", stg, kind, p, bytes.len(), xor, loc, msg.chars().take(200).collect::<String>())))
 			},
 		};
 		vcore::set_last_panic(saved);
